@@ -927,7 +927,7 @@ def api_terminated(tr, uid):
     return sub_done('resp') and sub_done('req') and pub_done('resp') and pub_done('req')
 
 
-def mon_no_state(tr, pid='C10'):
+def mon_no_state(tr, pid='C10', skip_uids=()):
     """At quiescence neither endpoint keeps a stream table entry or a partial frame for an interaction that has
     terminated at the API; when everything has terminated both tables and both caches are empty."""
     out = []
@@ -946,6 +946,8 @@ def mon_no_state(tr, pid='C10'):
                 out.append(viol('stream_entry_for_unknown_interaction', '%s:unknown_entry' % pid, side=side, sid=sid))
                 continue
             uid = owners[-1]
+            if uid in skip_uids:
+                continue  # (see the caller: an id re-used while frames of its cancelled previous life were still in flight)
             if term[uid]:
                 spec = scn.st[uid]['spec']
                 role = 'requester' if spec['side'] == side else 'responder'
